@@ -111,7 +111,7 @@ func (ck *PlistChecker) collectFilesAndDirs(plines []*PlistLine) {
 		switch {
 		case text == "":
 			break
-		case plistLineStart.Contains(text[0]):
+		case pline.HasPath():
 			ck.collectPath(NewRelPathString(text), pline)
 		case text[0] == '@':
 			ck.collectDirective(pline)
@@ -151,7 +151,7 @@ func (ck *PlistChecker) checkLine(pline *PlistLine) {
 		fix.Delete()
 		fix.Apply()
 
-	} else if plistLineStart.Contains(text[0]) {
+	} else if pline.HasPath() {
 		ck.checkPath(pline, pline.Path())
 
 	} else if m, cmd, arg := match2(text, `^@([a-z-]+)[\t ]*(.*)`); m {
@@ -561,13 +561,14 @@ func (pline *PlistLine) RelLine(other *Line) string {
 }
 
 func (pline *PlistLine) HasPath() bool {
-	return pline.text != "" && plistLineStart.Contains(pline.text[0])
+	// A text like "c:/dir" counts as an absolute path, see Path.IsAbs.
+	return pline.text != "" && plistLineStart.Contains(pline.text[0]) &&
+		!NewPath(pline.text).IsAbs()
 }
 
 func (pline *PlistLine) HasPlainPath() bool {
 	text := pline.text
-	return text != "" &&
-		plistLineStart.Contains(text[0]) &&
+	return pline.HasPath() &&
 		!containsExpr(text)
 }
 
